@@ -329,6 +329,10 @@ let run mode (line : string) : string =
      | _ -> failwith "lex")
   | "batch" -> run_batch x
   | "lsp" -> run_lsp x
+  | "print_pp" -> Drv_print.run "pp" line
+  | "print_cmap" -> Drv_print.run "cmap" line
+  | "print_sched" -> Drv_print.run "sched" line
+  | "print_f64" -> Drv_print.run "f64" line
   | "xml_out" -> Drv_xml.run "out" line
   | "xml_rt" -> Drv_xml.run "rt" line
   | "xml_tree" -> Drv_xml.run "tree" line
